@@ -34,7 +34,9 @@ THEOREMS = ['begin_only_after_ok', 'begin_only_after_ok_of_current_mechanism', '
             'mechanisms_once_in_order', 'moves_on_after_rejected_or_error', 'no_stall', 'no_stall_run',
             'no_complete_line_buffered', 'framing_independent_of_reads', 'line_delivered_in_pieces',
             'exhaustion_closes', 'unknown_line_closes', 'silent_after_close',
-            'completes_against_spec_server', 'completes_against_spec_server_bytes', 'handlerWords_table']
+            'completes_against_spec_server', 'completes_against_spec_server_bytes', 'handlerWords_table',
+            'own_bus_handshake_completes', 'own_bus_handshake_progress', 'own_bus_no_early_binary',
+            'own_bus_reachable_safe', 'own_bus_mechanism']
 TRUSTED_BASE = [
     'bytes.split/strip, binascii.hexlify/unhexlify, getattr dispatch on "_auth_"+cmd (mirrored by hand; validated by the streams)',
     'hashlib.sha1 (model: parameter; driver: Lean SHA-1 validated by the cookie streams), os.urandom, getpass, os.stat, open: explicit inputs',
